@@ -92,7 +92,14 @@ def yaml_rt(sk, *xs):
                 return fail("reloaded tensor differs")
             if u.getRankIds() != t.getRankIds() or u.getShape() != t.getShape() or u.getName() != t.getName():
                 return fail("rank ids / shape / name not preserved: %r %r %r" % (u.getRankIds(), u.getShape(), u.getName()))
-            return mirror(u)
+            # a loaded tensor is a tensor like any other: dumping *it* and loading again changes nothing either
+            u.dump("mem2.yaml")
+            v = Tensor.fromYAMLfile("mem2.yaml")
+            if not (v == t) or v.getRankIds() != t.getRankIds() or v.getShape() != t.getShape() or v.getName() != t.getName():
+                return fail("second dump/load round trip: rank ids / shape / name %r %r %r (original shape %r)" % (v.getRankIds(), v.getShape(), v.getName(), t.getShape()))
+            if u.getShape(authoritative=True) != t.getShape(authoritative=True):
+                return fail("a tensor loaded from YAML reports its shape as %r, the dumped one as %r (authoritative)" % (u.getShape(authoritative=True), t.getShape(authoritative=True)))
+            return mirror(u) and mirror(v)
         if sk["what"] == "fiber":
             f.dump("mem.yaml")
             g = Fiber.fromYAMLfile("mem.yaml")
